@@ -1,1 +1,339 @@
-/- C12: property theorems (not yet built). -/
+/- C12 — std.format and the % operator implement printf-style formatting.
+   Property theorems only (helper lemmas live in Proofs/Format.lean).
+   Model = `JrsVerif.Format` (format.rs as coded, after the `fix:` commits), reference =
+   `JrsVerif.FormatSpec` (Python/Jsonnet %-formatting). -/
+import JrsVerif.Proofs.Format
+
+set_option linter.unusedSimpArgs false
+
+namespace JrsVerif.Format
+open JrsVerif.Generated
+
+/-! ### tables re-extracted from format.rs agree with the reference tables -/
+
+/-- the conversion characters of `parse_conversion_type` are exactly d i u o x X e E f F g G c s %
+    with the reference meaning (a changed, dropped or added arm breaks this) -/
+theorem conv_table_spec :
+    FMT_CONV_TABLE.map (fun (c, n, k) => (c, convOfName n, k))
+      = FormatSpec.convTable.map (fun (c, v, k) => (c, some v, k)) := by decide
+
+/-- the flag characters are `# 0 - space +` in the reference meaning, the length modifiers `h l L`,
+    the digit alphabet, default precisions 6/0, `%g` switches to exponent form below 1e-4, and the
+    exponent has at least two digits -/
+theorem flag_table_spec :
+    FMT_FLAG_TABLE = [('#', 0), ('0', 1), ('-', 2), (' ', 3), ('+', 4)] ∧ FMT_LENMOD = ['h', 'l', 'L']
+      ∧ FMT_NUMBERS.toList.take 16 = "0123456789abcdef".toList
+      ∧ FMT_DEFAULT_FPPREC = 6 ∧ FMT_DEFAULT_IPREC = 0 ∧ FMT_G_LOW_EXP = 4 ∧ FMT_EXP_PADDING = 3 := by
+  decide
+
+/-! ### integer conversions -/
+
+/-- C12 `int_conv_spec`: for every flag subset, width, precision (given, absent, or taken from `*`),
+    conversion d/i/u/o/x/X and every number whose integer part is below 2^63, `format_code` never
+    panics and produces exactly the reference text (sign, `#` prefix, precision zeros, `0`/`-`/space
+    filling to `width` characters). -/
+theorem int_conv_spec (n : Num) (d : List Char) (c : Code) (w : Nat) (p : Option Nat)
+    (hc : c.conv = .dec ∨ c.conv = .oct ∨ c.conv = .hex) (hn : n.whole ≤ I64_MAX) :
+    formatCode (.num n d) c w p =
+      .ok (FormatSpec.intConv c.flags w p c.conv c.caps (FormatSpec.truncInt n)) :=
+  formatCode_int n d c w p hc hn
+
+/-- non-vacuity: `"%+08.3x" % -255.5` -/
+example :
+    formatCode (.num { neg := true, whole := 255, fracNZ := true } [])
+      { mkey := [], flags := { zero := true, sign := true }, width := .fixed 8, prec := some (.fixed 3),
+        conv := .hex, caps := false } 8 (some 3) = .ok "-00000ff".toList := by
+  rw [int_conv_spec _ _ _ _ _ (Or.inr (Or.inr rfl)) (by decide)]
+  exact congrArg Except.ok (by decide)
+
+/-- the full statement without the `i64` bound -/
+def IntConvStmt : Prop :=
+  ∀ (n : Num) (d : List Char) (c : Code) (w : Nat) (p : Option Nat),
+    (c.conv = .dec ∨ c.conv = .oct ∨ c.conv = .hex) →
+    formatCode (.num n d) c w p =
+      .ok (FormatSpec.intConv c.flags w p c.conv c.caps (FormatSpec.truncInt n))
+
+/-- KNOWN FINDING (c12_render_integer_saturates_at_i64): `"%d" % 9223372036854775808` prints
+    9223372036854775807 — `iv.floor() as i64` saturates. -/
+theorem int_conv_counterexample : ¬ IntConvStmt := by
+  intro h
+  have := h { neg := false, whole := 9223372036854775808 } []
+    { mkey := [], flags := {}, width := .fixed 0, prec := none, conv := .dec, caps := false } 0 none
+    (Or.inl rfl)
+  have h2 := congrArg (fun r => match r with | Except.ok s => s.getLast? | _ => none) this
+  revert h2
+  decide
+
+/-- the statement holds exactly outside the classifier (`|v| < 2^63`) -/
+theorem int_conv_partial (n : Num) (d : List Char) (c : Code) (w : Nat) (p : Option Nat)
+    (hc : c.conv = .dec ∨ c.conv = .oct ∨ c.conv = .hex) (hn : ¬ n.whole ≥ 2 ^ 63) :
+    formatCode (.num n d) c w p =
+      .ok (FormatSpec.intConv c.flags w p c.conv c.caps (FormatSpec.truncInt n)) :=
+  formatCode_int n d c w p hc (by unfold I64_MAX; omega)
+
+/-! ### padding of text conversions -/
+
+/-- C12 `pad_spec`: `%s` pads the value's text to `width` *characters* (code points), on the right
+    for `-`, else on the left; never truncates; the `0` flag and the precision do not apply. -/
+theorem pad_spec (v : Val) (c : Code) (w : Nat) (p : Option Nat) (hc : c.conv = .str) :
+    formatCode v c w p = .ok (FormatSpec.padText c.flags w v.disp) := by
+  unfold formatCode formatBody FormatSpec.padText FormatSpec.spaces
+  simp only [hc, bind, Except.bind, pure, Except.pure]
+
+/-- the width is measured in characters: "é" is one character -/
+example :
+    formatCode (.str [Char.ofNat 233])
+      ({ mkey := [], flags := {}, width := .fixed 5, prec := none, conv := .str, caps := false } : Code)
+      5 none = .ok [' ', ' ', ' ', ' ', Char.ofNat 233] := by
+  rw [pad_spec _ _ _ _ rfl]; exact congrArg Except.ok (by decide)
+
+/-- `%%` renders a percent sign (padded like text), whatever value it is handed -/
+theorem percent_text (v : Val) (c : Code) (w : Nat) (p : Option Nat) (hc : c.conv = .pct) :
+    formatCode v c w p = .ok (FormatSpec.padText c.flags w ['%']) := by
+  unfold formatCode formatBody FormatSpec.padText FormatSpec.spaces
+  simp only [hc, bind, Except.bind, pure, Except.pure]
+
+/-! ### `%c` -/
+
+/-- the full statement for `%c` -/
+def CharConvStmt : Prop :=
+  ∀ (v : Val) (c : Code) (w : Nat) (p : Option Nat), c.conv = .chr →
+    formatCode v c w p = FormatSpec.conv c w p v
+
+/-- KNOWN FINDING (c12_char_of_negative_number_is_nul): `"%c" % -3` is "\u0000", not an error -/
+theorem char_conv_counterexample : ¬ CharConvStmt := by
+  intro h
+  have := h (.num { neg := true, whole := 3 } [])
+    { mkey := [], flags := {}, width := .fixed 0, prec := none, conv := .chr, caps := false } 0 none rfl
+  have h2 := congrArg (fun r => match r with | Except.ok _ => true | _ => false) this
+  revert h2
+  decide
+
+def negativeNumber : Val → Bool
+  | .num n _ => n.neg && decide (n.whole ≥ 1)
+  | _ => false
+
+/-- C12 `c_conv_spec`: outside the classifier (a number ≤ -1), `%c` is the reference: the character
+    with that code point (fractions truncated), a one-character string as is, padded to `width`
+    characters; surrogates, code points above 0x10FFFF, longer strings and other types are errors -/
+theorem char_conv_partial (v : Val) (c : Code) (w : Nat) (p : Option Nat) (hc : c.conv = .chr)
+    (hv : negativeNumber v = false) : formatCode v c w p = FormatSpec.conv c w p v := by
+  unfold formatCode formatBody FormatSpec.conv FormatSpec.padText FormatSpec.spaces
+  simp only [hc]
+  cases v with
+  | num n d =>
+    simp only [negativeNumber] at hv
+    have htr : (FormatSpec.truncInt n < 0) = False := by
+      have := truncInt_neg n; rw [hv] at this; simpa using this
+    simp only [htr, if_false]
+    by_cases hneg : n.neg = true
+    · have hw : n.whole = 0 := by
+        simp only [hneg, Bool.true_and, decide_eq_false_iff_not] at hv; omega
+      simp only [hneg, if_true, hw]
+      rfl
+    · simp only [hneg, Bool.false_eq_true, if_false]
+      by_cases hbig : n.whole ≤ 4294967295
+      · rw [Nat.min_eq_left hbig]
+        have hvs : validScalar n.whole = FormatSpec.isScalar n.whole := rfl
+        rw [hvs]; cases FormatSpec.isScalar n.whole <;> rfl
+      · have h1 : min n.whole 4294967295 = 4294967295 := Nat.min_eq_right (by omega)
+        have h2 : FormatSpec.isScalar n.whole = false := by
+          unfold FormatSpec.isScalar
+          simp only [Bool.or_eq_false_iff, decide_eq_false_iff_not, Bool.and_eq_false_imp, decide_eq_true_eq]
+          omega
+        rw [h1, h2]; rfl
+  | str s => by_cases h : s.length = 1 <;> simp [h, bind, Except.bind, pure, Except.pure]
+  | obj fs d => rfl
+  | other d => rfl
+
+/-! ### value consumption -/
+
+/-- number of values the elements consume: one per `*`, one per conversion except `%%` -/
+def totalNeed : List Elem → Nat
+  | [] => 0
+  | .lit _ :: es => totalNeed es
+  | .code c :: es => FormatSpec.need c + totalNeed es
+
+/-- C12 `consumes_left_to_right`: the first code reads exactly the first `need c` values (its `*`
+    width, then its `*` precision, then its value), its text depends on those values only, and the
+    remaining codes are formatted from the remaining values. -/
+theorem consumes_left_to_right (c : Code) (es : List Elem) (vals : List Val) (out : List Char)
+    (h : formatElemsArr (.code c :: es) vals = .ok out) :
+    ∃ s r, out = s ++ r ∧ stepArr c (vals.take (FormatSpec.need c)) = .ok (s, []) ∧
+      formatElemsArr es (vals.drop (FormatSpec.need c)) = .ok r := by
+  simp only [formatElemsArr, bind, Except.bind] at h
+  cases hs : stepArr c vals with
+  | error e => simp [hs] at h
+  | ok x =>
+    obtain ⟨s, rest⟩ := x
+    simp only [hs] at h
+    cases hr : formatElemsArr es rest with
+    | error e => simp [hr] at h
+    | ok r =>
+      simp only [hr, pure, Except.pure, Except.ok.injEq] at h
+      obtain ⟨u, e1, l1, f1⟩ := stepArr_frames c vals s rest hs
+      refine ⟨s, r, h.symm, ?_, ?_⟩
+      · have := f1 []
+        rw [e1, ← l1]; simpa using this
+      · rw [e1, ← l1]; simpa using hr
+
+/-- a literal element is copied and consumes nothing -/
+theorem literal_elem_copied (s : List Char) (es : List Elem) (vals : List Val) :
+    formatElemsArr (.lit s :: es) vals = (formatElemsArr es vals).map (s ++ ·) := by
+  simp only [formatElemsArr, bind, Except.bind, pure, Except.pure, Except.map]
+
+/-- success means the number of values is exactly the number the codes consume -/
+theorem value_count_exact (es : List Elem) (vals : List Val) (out : List Char)
+    (h : formatElemsArr es vals = .ok out) : vals.length = totalNeed es := by
+  induction es generalizing vals out with
+  | nil => cases vals <;> simp [formatElemsArr, totalNeed] at h ⊢
+  | cons e es ih =>
+    cases e with
+    | lit s =>
+      rw [literal_elem_copied] at h
+      cases hr : formatElemsArr es vals with
+      | error e => simp [hr, Except.map] at h
+      | ok r => simpa [totalNeed] using ih vals r hr
+    | code c =>
+      obtain ⟨s, r, _, _, h3⟩ := consumes_left_to_right c es vals out h
+      have := ih _ r h3
+      simp only [formatElemsArr, bind, Except.bind] at h
+      cases hs : stepArr c vals with
+      | error e => simp [hs] at h
+      | ok x =>
+        obtain ⟨u, e1, l1, _⟩ := stepArr_frames c vals x.1 x.2 hs
+        simp only [List.length_drop] at this
+        simp only [totalNeed]
+        have hl : vals.length = u.length + x.2.length := by rw [e1]; simp
+        omega
+
+/-- C12 `too_few_is_error` -/
+theorem too_few_is_error (es : List Elem) (vals : List Val) (h : vals.length < totalNeed es) :
+    ∃ e, formatElemsArr es vals = .error e := by
+  cases hr : formatElemsArr es vals with
+  | error e => exact ⟨e, rfl⟩
+  | ok out => have := value_count_exact es vals out hr; omega
+
+/-- C12 `too_many_is_error` -/
+theorem too_many_is_error (es : List Elem) (vals : List Val) (h : totalNeed es < vals.length) :
+    ∃ e, formatElemsArr es vals = .error e := by
+  cases hr : formatElemsArr es vals with
+  | error e => exact ⟨e, rfl⟩
+  | ok out => have := value_count_exact es vals out hr; omega
+
+/-- non-vacuity: "%*d" needs two values -/
+example : totalNeed [.code { mkey := [], flags := {}, width := .star, prec := none, conv := .dec, caps := false }] = 2 := by
+  decide
+
+/-- C12 `percent_no_consume`: `%%` (also with flags and a width) takes no value and yields `%` -/
+theorem percent_no_consume (c : Code) (w : Nat) (vals : List Val) (hc : c.conv = .pct)
+    (hw : c.width = .fixed w) (hp : c.prec ≠ some .star) :
+    stepArr c vals = .ok (FormatSpec.padText c.flags w ['%'], vals) := by
+  unfold stepArr
+  rw [hw]
+  simp only [takeWidth]
+  have : ∃ p', takePrec c.prec vals = .ok (p', vals) := by
+    match hcp : c.prec with
+    | none => exact ⟨none, rfl⟩
+    | some (.fixed n) => exact ⟨some n, rfl⟩
+    | some .star => exact absurd hcp hp
+  obtain ⟨p', h1⟩ := this
+  simp only [h1, hc, decide_true, takeValue, if_true, percent_text _ c w p' hc]
+
+/-! ### literal text -/
+
+/-- C12 `literal_copied`: a format string without `%` is copied unchanged (and accepts no values) -/
+theorem literal_copied (s : List Char) (h : '%' ∉ s) :
+    formatArr s [] = .ok s ∧ ∀ v vs, formatArr s (v :: vs) = .error .tooMany := by
+  have hp : parseCodes s = .ok (if s.isEmpty then [] else [Elem.lit s]) := by
+    simp [parseCodes, parseCodesF, spanLit_no_percent s h]
+  constructor
+  · simp only [formatArr, hp, bind, Except.bind]
+    cases s <;> simp [formatElemsArr, bind, Except.bind, pure, Except.pure]
+  · intro v vs
+    simp only [formatArr, hp, bind, Except.bind]
+    cases s <;> simp [formatElemsArr, bind, Except.bind, pure, Except.pure]
+
+/-! ### object mode -/
+
+/-- C12 `obj_mode_spec`: with an object argument every specifier is resolved by its `%(key)`:
+    `*` is rejected, a specifier other than `%%` without a key is rejected, the key names a field
+    (or a dotted path through nested objects), a missing field is an error, `%%` looks nothing up;
+    the result is the concatenation of literal text and converted fields in order. -/
+theorem obj_mode_spec (fields : List (List Char × Val)) (disp : List Char) (es : List Elem) :
+    formatElemsObj fields disp es
+      = FormatSpec.elemsObjWith (fun c w p v => formatCode v c w p) fields disp es := by
+  induction es with
+  | nil => rfl
+  | cons e es ih =>
+    cases e with
+    | lit s =>
+      simp only [formatElemsObj, FormatSpec.elemsObjWith, FormatSpec.elemTextWith, bind, Except.bind, ih,
+        pure, Except.pure]
+      cases FormatSpec.elemsObjWith (fun c w p v => formatCode v c w p) fields disp es <;> rfl
+    | code c =>
+      have hstep : stepObj fields disp c
+          = FormatSpec.convObjWith (fun c w p v => formatCode v c w p) fields disp c := by
+        unfold stepObj FormatSpec.convObjWith FormatSpec.lookupKey
+        cases hw : c.width with
+        | star => rfl
+        | fixed w =>
+          match hp : c.prec with
+          | some .star => rfl
+          | none =>
+            simp only [bind, Except.bind, pure, Except.pure]
+            by_cases h1 : c.conv = .pct
+            · simp [h1]
+            · by_cases h2 : c.mkey = []
+              · simp [h1, h2]
+              · simp only [h1, h2, if_false, List.isEmpty_iff]
+                cases fields.lookup c.mkey with
+                | some v => rfl
+                | none => simp only [dotted_eq_walk, splitDots_eq_path]; cases FormatSpec.walk _ _ <;> rfl
+          | some (.fixed n) =>
+            simp only [bind, Except.bind, pure, Except.pure]
+            by_cases h1 : c.conv = .pct
+            · simp [h1]
+            · by_cases h2 : c.mkey = []
+              · simp [h1, h2]
+              · simp only [h1, h2, if_false, List.isEmpty_iff]
+                cases fields.lookup c.mkey with
+                | some v => rfl
+                | none => simp only [dotted_eq_walk, splitDots_eq_path]; cases FormatSpec.walk _ _ <;> rfl
+      simp only [formatElemsObj, FormatSpec.elemsObjWith, FormatSpec.elemTextWith, bind, Except.bind, ih,
+        pure, Except.pure, hstep]
+      cases FormatSpec.convObjWith (fun c w p v => formatCode v c w p) fields disp c with
+      | error e => rfl
+      | ok s => cases FormatSpec.elemsObjWith (fun c w p v => formatCode v c w p) fields disp es <;> rfl
+
+/-- non-vacuity: `"%(a.b)s" % {a: {b: "x"}}` reaches the nested field -/
+example :
+    (FormatSpec.lookupKey [("a".toList, .obj [("b".toList, .str ['x'])] [])] [] "a.b".toList).toOption.map Val.disp
+      = some ['x'] := by decide
+
+/-! ### parser -/
+
+/-- the conversion character decides: a known one (`d i u o x X e E f F g G c s %`, reference table)
+    ends the code with that conversion, any other character is `unknownConv`, end of text is
+    `truncated` -/
+theorem conversion_char_spec (s : List Char) :
+    parseConv s = match s with
+      | [] => .error .truncated
+      | c :: r => match FormatSpec.convTable.lookup c with
+        | some v => .ok (v, r)
+        | none => .error .unknownConv :=
+  parseConv_spec s
+
+/-- C12 (errors rather than crashes): parsing any format string either succeeds or reports one of
+    the three format errors — truncated code, unrecognised conversion, width/precision above
+    65535; in particular the `u16` width arithmetic never panics. -/
+theorem parse_errors_only (s : List Char) (e : Err) (h : parseCodes s = .error e) :
+    e = .truncated ∨ e = .unknownConv ∨ e = .tooLarge :=
+  parseCodesF_err _ s e h
+
+/-- a `%` at the very end, and a code cut off after its flags/width/precision, are `truncated` -/
+example : parseCodes "100%".toList = .error .truncated ∧ parseCodes "%-05.3".toList = .error .truncated
+    ∧ parseCodes "%(key".toList = .error .truncated ∧ parseCodes "%5q".toList = .error .unknownConv
+    ∧ parseCodes "%99999d".toList = .error .tooLarge := ⟨rfl, rfl, rfl, rfl, rfl⟩
+
+end JrsVerif.Format
